@@ -8,3 +8,9 @@ mkdir -p bin evidence replays
 cp /repo/go.sum go.sum 2>/dev/null || true
 go build -o bin/vcheck ./cmd/vcheck
 echo "setup ok"
+# warm the E4 (overlay) and race-pass builds
+python3 e4/gen_overlay.py >/dev/null
+mkdir -p .work
+CGO_ENABLED=0 go build -overlay .work/overlay.json -tags e4 -o bin/vcheck19 ./cmd/vcheck19
+CGO_ENABLED=1 go build -race -o bin/vrace19 ./cmd/vrace19
+echo "setup ok (E4)"
